@@ -93,7 +93,7 @@ var realComponents = []string{"github.com/zclconf/go-cty/cty (instrumented copy 
 	"cty/json", "cty/msgpack", "cty/gocty", "cty/ctystrings", "github.com/vmihailenco/msgpack/v5", "github.com/apparentlymart/go-textseg/v15", "golang.org/x/text/unicode/norm", "Go standard library"}
 
 var props = map[string]*propCfg{
-	"C20": {race: true, quickRuns: 1 << 40, quickBudget: 55 * time.Second, thorBudget: 10 * time.Minute, thorRuns: 1 << 40, level: "exploration", procShrink: 60,
+	"C20": {race: true, quickRuns: 1 << 40, quickBudget: 45 * time.Second, thorBudget: 10 * time.Minute, thorRuns: 1 << 40, level: "exploration", procShrink: 60,
 		rule: "one evaluation = one simulated world: a shared pool of 6..40 generated values (all kinds, marks, refined unknowns, capsules, collision-prone sets), types, shared ValueSets/PathSets and paths; 2..16 caller tasks each running a seeded history of 3..35 operations drawn from a per-run random subset of ~80 operations over the public API (operation methods, accessors followed by mutation of the returned Go data, constructors followed by mutation of the data passed in - the fresh result frozen before the mutation and compared after it -, ValueSet/PathSet copy-and-diverge life cycles, refinement builders reused after NewValue, Walk/Transform/Path.Apply, convert, conversions obtained once and shared by all tasks, stdlib function calls incl. a type-directed call table over every stdlib function, JSON/msgpack/gocty round trips). The same programs are executed five times: sequentially (fingerprints of every pre-existing object re-checked after every operation), sequentially again (purity), sequentially under another map-iteration order, and twice concurrently under the seeded baton scheduler (random / PCT / round-robin / call-granular strategies) with the Go race detector watching. Every run is non-trivial (it fires aliasing faults and context switches); distinct = distinct (tasks, operations, pool size, multiset of fired fault kinds).",
 		assumptions: []string{"race detection is the Go race detector's happens-before analysis with history_size=7; sync.Pool and math/big's divisor-table lock are replaced in the simulation build only so that they do not order unrelated tasks (DESIGN.md §3.3)",
 			"data whose ownership the documentation passes to the library (NumberVal's big.Float, Tuple/Object type arguments, a path placed in a PathSet) is never mutated by the harness",
